@@ -16,10 +16,11 @@ per line, `op => observation`:
         *some* iteration order (i.e. a permutation of the regions that `sortClients`/`Build` leave
         unchanged) and uses it from then on.
   wrap <plug> pt=<n> dk=<n> gen=<bits> enc=<bits> kid=<same|other|nil> key=<ok|bad>
-        => <ok|err:allfail|err:seal|panic> calls=<gen:r,…,enc:r,…|-> bufs=<k> dirty=<d> [env=<E> entries=<r,…|-> json=<sym>]
+        => fatal | <ok|err:allfail|err:seal|panic> calls=<gen:r,…,enc:r,…|-> bufs=<k> dirty=<d> [env=<E> entries=<r,…|-> json=<sym>]
         EncryptKey of payload p<n>.  bit i = 1: region i fails GenerateDataKey / Encrypt.  `dk`: name of the
         data key the generating region hands out; `key=bad`: it is not an AES-256 key; `kid`: KeyId in
-        the GenerateDataKey answer (own ARN | some other string | nil).  `calls`: gen calls in order,
+        the GenerateDataKey answer (own ARN | some other string | nil).  `fatal`: the process died (v2
+        dereferences a nil KeyId in a goroutine; the harness replays the case in a child to see it).  `calls`: gen calls in order,
         then the (concurrent) enc calls sorted; `bufs`/`dirty`: plaintext slices the fakes returned
         during the call / how many of them are not all-zero after it returned; `entries`: regions in
         envelope order (arrival order is an oracle, the driver adopts it); `json`: the envelope JSON
@@ -215,7 +216,9 @@ def step (s : St) (line : String) : St × Array String :=
       let o := encryptKey p cloud sched clients pt
       let dirtyM := (o.bufs.filter (!·.wiped)).length
       let jsonM := match o.res with | .ok e => renderEnvelope p (tagsOf p) e | _ => ""
-      let mObs := s!"{showWrapRes o.res} calls={showCalls o.calls} bufs={o.bufs.length} dirty={dirtyM}" ++
+      -- a dead process (v2, nil KeyId) is observed from outside: nothing but the fact
+      let mObs := if o.res == .fatal then "fatal" else
+        s!"{showWrapRes o.res} calls={showCalls o.calls} bufs={o.bufs.length} dirty={dirtyM}" ++
         (match o.res with | .ok e => s!" entries={showList (e.keks.map (·.region))} json={jsonM}" | _ => "")
       -- Go's observation without the envelope number
       let gObs := " ".intercalate (ow.filter fun w => (w.splitOn "=").head! != "env")
